@@ -105,6 +105,46 @@ def run(rep, tier):
         else:
             rep.bad("C11.R2", fn, fn.loc, "task-body", "a worker task must run the loop inside try (%s), record an exception (%s) and call finish() exactly once (%s): "
                     "otherwise bulk never completes or an exception escapes the task" % (bool(dw and dw[0][2].get("try") is not None), stores, sorted(cf.exits)))
+    LV = NSB + "::set_value_loop_visitor"
+    # who may invoke the user callable: op_state->f is referenced (other than for the annotation) only in
+    # task_function::do_work_chunk, which is reached only through do_work() - i.e. inside the try above
+    uses = []
+    for fn in D.fns:
+        if not fn.qname.startswith(NSB + "::") or fn.pattern:
+            continue
+        for b, i, ev in fn.all_events():
+            if ev.get("k") == "read":
+                continue
+            refs = subexprs(ev, lambda y: isinstance(y, dict) and y.get("k") == "mem" and y.get("name") == "f" and
+                            str(y.get("rec", "")).endswith("thread_pool_bulk_detail::operation_state"))
+            if not refs:
+                continue
+            if ev.get("k") in ("ctor", "decl") and "scoped_annotation" in str(ev.get("rec", "")) + str(ev.get("type", "")):
+                continue
+            if ev.get("k") == "init":
+                continue        # the operation state stores f
+            uses.append((fn, b, i, ev))
+    if not uses:
+        raise AnalysisBroken("thread pool bulk: no use of the stored callable found")
+    for fn, b, i, ev in uses:
+        short = fn.qname.rsplit("::", 1)[-1]
+        if fn.qname == LV + "::do_work_chunk":
+            rep.ok("C11.R2", fn, "f is invoked in set_value_loop_visitor::do_work_chunk (reached only from task_function::do_work, under the task's exception guard)")
+        else:
+            rep.bad("C11.R2", fn, loc_of(ev), "f-outside-guard:" + short, "the user callable is used in %s (%s), outside set_value_loop_visitor::do_work_chunk: an exception thrown "
+                    "by f there is not recorded by store_exception() - it escapes a noexcept completion (std::terminate) instead of becoming set_error"
+                    % (fn.qname, T(ev)[:120]))
+    for fn in D.fns:
+        if fn.pattern or not fn.qname.startswith(NSB + "::"):
+            continue
+        for b, i, ev in fn.all_events():
+            if ev.get("k") == "call" and callee_short(ev) == "do_work_chunk" and not fn.qname.startswith(LV + "::"):
+                rep.bad("C11.R2", fn, loc_of(ev), "chunk-outside-task", "do_work_chunk is called from %s, outside the worker task's exception guard" % fn.qname)
+            if ev.get("k") in ("ctor", "construct") and str(ev.get("rec", "")) == LV and not ev.get("copymove") and fn.qname != TF + "::do_work":
+                rep.bad("C11.R2", fn, loc_of(ev), "visitor-outside-task", "the loop visitor (which invokes f) is created in %s, outside task_function::do_work" % fn.qname)
+            if ev.get("k") == "call" and callee_short(ev) == "do_work" and callee_of(ev).startswith(TF) and \
+                    not (fn.qname == TF + "::operator()" and ev.get("try") is not None):
+                rep.bad("C11.R2", fn, loc_of(ev), "do-work-outside-try", "task_function::do_work() is called outside the try block of the worker task")
     for fn in inst(NSB + "::do_work_task"):
         ff = FactFlow(fn)
         fin = [(b, i, ev) for b, i, ev in fn.all_events() if ev.get("k") == "call" and callee_short(ev) == "finish"]
